@@ -29,7 +29,7 @@ type srv struct {
 	closeAnn, runChk, notRun              bool
 	headChk, headTrue, skipSet            bool
 	bsChk, relNeed, relPending, relFailed bool
-	ioTried                               bool
+	ioTried, hjClear                      bool
 }
 
 func (s srv) String() string {
@@ -39,14 +39,14 @@ func (s srv) String() string {
 		}
 		return '0'
 	}
-	return s.phase + ":" + string([]byte{b(s.closeAnn), b(s.runChk), b(s.notRun), b(s.headChk), b(s.headTrue), b(s.skipSet), b(s.bsChk), b(s.relNeed), b(s.relPending), b(s.relFailed), b(s.ioTried)})
+	return s.phase + ":" + string([]byte{b(s.closeAnn), b(s.runChk), b(s.notRun), b(s.headChk), b(s.headTrue), b(s.skipSet), b(s.bsChk), b(s.relNeed), b(s.relPending), b(s.relFailed), b(s.ioTried), b(s.hjClear)})
 }
 
 func parseSrv(ts string) srv {
 	i := strings.IndexByte(ts, ':')
 	f := ts[i+1:]
 	g := func(k int) bool { return f[k] == '1' }
-	return srv{phase: ts[:i], closeAnn: g(0), runChk: g(1), notRun: g(2), headChk: g(3), headTrue: g(4), skipSet: g(5), bsChk: g(6), relNeed: g(7), relPending: g(8), relFailed: g(9), ioTried: g(10)}
+	return srv{phase: ts[:i], closeAnn: g(0), runChk: g(1), notRun: g(2), headChk: g(3), headTrue: g(4), skipSet: g(5), bsChk: g(6), relNeed: g(7), relPending: g(8), relFailed: g(9), ioTried: g(10), hjClear: g(11)}
 }
 
 // which rule categories each property reports
@@ -279,6 +279,9 @@ func serveLoop(e *Env, prop string) {
 						c.Violate(call.Pos(), "loop|"+fname+":"+site+":reset-phase", msg)
 						viol(c, "order", call.Pos(), site+":reset-phase", msg)
 					}
+					if !s.hjClear {
+						viol(c, "order", call.Pos(), site+":hijack-not-cleared", "the hijack handler installed by the previous request is not cleared (SetHijackHandler(nil)) before the context is reused")
+					}
 					if !s.bsChk || s.relNeed {
 						viol(c, "release", call.Pos(), site+":stream-not-released", "connection is reused without releasing a request body stream (IsBodyStream not consulted after the flush, or its true outcome does not reach ReleaseBodyStream)")
 					}
@@ -289,6 +292,12 @@ func serveLoop(e *Env, prop string) {
 						viol(c, "release", call.Pos(), site+":release-error-ignored", "ReleaseBodyStream failed but the connection is reused (unread body bytes would be parsed as the next request)")
 					}
 					upd(c, func(s *srv) { *s = srv{phase: "idle", closeAnn: s.closeAnn} })
+				case esp.Is(f, pkgApp, "RequestContext", "SetHijackHandler") && len(call.Args) == 1:
+					if id, ok := unparen(call.Args[0]).(*ast.Ident); ok && id.Name == "nil" {
+						upd(c, func(s *srv) { s.hjClear = true })
+					} else {
+						upd(c, func(s *srv) { s.hjClear = false })
+					}
 				case esp.Is(f, pkgExt, "", "ReleaseBodyStream"):
 					upd(c, func(s *srv) { s.relNeed = false; s.relPending = true })
 				case esp.Is(f, pkgHTTP1, "", "writeErrorResponse"):
